@@ -79,6 +79,7 @@ class CacheWorld(object):
     self.final_phase = False
     self.db_seq = {}
     self.lag_changed = False
+    self.overflow_signals = 0
     self.handed = {}
     self.accepted_from_receivers = {}
 
@@ -120,6 +121,15 @@ class CacheWorld(object):
     db.fault_plan = {int(k): tuple(v) for k, v in self.plan.get('db_faults', {}).items()}
     db.on_call = self.on_db_call
     txlog.addObserver(self.log_observer)
+    # what the daemon *reports* (self-metrics recorded at every CARBON_METRIC_INTERVAL tick)
+    self.reported = {}
+    inst = w.instrumentation
+    real_record = inst.cache_record
+
+    def cache_record(metric, value):
+      me.reported[metric] = me.reported.get(metric, 0) + (value if isinstance(value, (int, float)) else 0)
+      return real_record(metric, value)
+    inst.cache_record = cache_record
     if self.plan.get('oversleep'):
       ov = self.plan['oversleep']
       cnt = [0]
@@ -347,6 +357,7 @@ class CacheWorld(object):
       else:
         self.ctx.probe('store_from_writer_thread')
     if out == 'overflow':
+      self.overflow_signals += 1
       self.ctx.probe('store_refused')
     elif out == 'dup':
       self.ctx.probe('store_duplicate_ts')
@@ -766,6 +777,20 @@ class CacheWorld(object):
                            'connections=%r' % (size, low, st.metricReceiversPaused,
                                                st.cacheTooFull, paused))
 
+  def check_overflow_counter(self):
+    """C10: every refusal feeds the cache.overflow counter -- what was reported at the
+    instrumentation ticks plus what is pending equals the refusals signalled."""
+    if not self.settings.CARBON_METRIC_INTERVAL:
+      return
+    total = self.reported.get('cache.overflow', 0) + self.w.instrumentation.stats.get('cache.overflow', 0)
+    if total != self.overflow_signals:
+      self.ctx.violation('C10', 'overflow-count-lost', 'cache.overflow',
+                         '%d refusals were signalled; the cache.overflow counter reported %r over the '
+                         'instrumentation ticks plus %r pending' % (
+                           self.overflow_signals, self.reported.get('cache.overflow', 0),
+                           self.w.instrumentation.stats.get('cache.overflow', 0)))
+    self.ctx.probe('instrumentation_ticks_checked')
+
   def check_conservation(self):
     """C02 (iv): drained ∪ cached == accepted history, exactly once -- follows
     from stepwise refinement; here the end-state cross-check."""
@@ -1021,7 +1046,8 @@ class CacheWorld(object):
         self.check_backpressure_drainer()
         self.final_drain_clause()
     self.check_conservation()
-    if self.wmode == 'writer':
+    self.check_overflow_counter()
+    if self.wmode == 'writer' and not self.settings.CARBON_METRIC_INTERVAL:
       self.check_writer_history()
     self.finish('done')
 
